@@ -308,6 +308,12 @@ var intBase = map[string][4]string{
 	"i16":  {"0x1100", "-0x2200", "0x3300", "-0x7000"},
 	"i32":  {"0x11220000", "-0x22330000", "0x33440000", "-0x70000000"},
 	"i64":  {"0x1122334455660000", "-0x2233445566770000", "0x3344556677880000", "-0x7000000000000000"},
+	// unsigned leaves: the sentinel has the top bit set, so a sign-extending load shows too
+	"u8":   {"10", "150", "60", "200"},
+	"byte": {"10", "150", "60", "200"},
+	"u16":  {"0x1100", "0xa200", "0x3300", "0xf000"},
+	"u32":  {"0x11220000", "0xa2330000", "0x33440000", "0xf0000000"},
+	"u64":  {"0x1122334455660000", "0xa233445566770000", "0x3344556677880000", "0xf000000000000000"},
 	"i128": {"0x112233445566778899aabbccddee0000", "-0x2233445566778899aabbccddeeff0000", "0x33445566778899aabbccddeeff110000", "-0x70000000000000000000000000000000"},
 }
 
